@@ -293,7 +293,7 @@ pub fn run_k16(tier: &str, seed: u64, out: &str) {
             let requests: BTreeSet<String> = em.tree.keys().filter_map(|p| p.strip_prefix("src/request/").and_then(|x| x.strip_suffix(".rs"))).filter(|x| *x != "mod").map(|x| x.to_string()).collect();
             rep.add("operations", em.hir.operations.len() as u64);
             if examples != requests || examples.len() != em.hir.operations.len() {
-                let trig = if requests.len() != em.hir.operations.len() { vec!["synthNameCollision".to_string()] } else { vec![] };
+                let trig = if requests.len() != em.hir.operations.len() && crate::hirprops::documented_synth_clash(&c.doc) { vec!["synthNameCollision".to_string()] } else { vec![] };
                 rep.oracle_fail("exampleSetMismatch", trig, &case_text(c), &format!("examples {:?} vs request modules {:?} for {} operations", examples, requests, em.hir.operations.len()));
             }
             if !r.lib_errors.is_empty() { rep.bump("skipped_library_does_not_compile"); continue; }   // quantifier: specs whose library compiles
@@ -490,6 +490,20 @@ fn adapter_type_in_container(doc: &Value, s: &Value, depth: usize) -> bool {
     false
 }
 
+/// a property written `allOf: [{$ref: X}]` (not itself nullable) whose target X is declared nullable
+fn nullable_behind_allof(doc: &Value, s: &Value, depth: usize) -> bool {
+    if depth > 6 { return false; }
+    let (s, _) = resolve(doc, s);
+    let wrapper = |p: &Value| -> bool {
+        if p["nullable"] == serde_json::json!(true) { return false; }
+        match p["allOf"].as_array() { Some(a) if a.len() == 1 && a[0].get("$ref").is_some() => { let (t, _) = resolve(doc, &a[0]); t["nullable"] == serde_json::json!(true) } _ => false }
+    };
+    if let Some(p) = s["properties"].as_object() { if p.values().any(|x| wrapper(x) || nullable_behind_allof(doc, x, depth + 1)) { return true; } }
+    if let Some(a) = s["allOf"].as_array() { if a.iter().any(|x| nullable_behind_allof(doc, x, depth + 1)) { return true; } }
+    for key in ["items", "additionalProperties"] { if let Some(e) = s.get(key) { if e.is_object() && (wrapper(e) || nullable_behind_allof(doc, e, depth + 1)) { return true; } } }
+    false
+}
+
 /// a list or map whose elements may be null
 fn nullable_in_container(doc: &Value, s: &Value, depth: usize) -> bool {
     if depth > 6 { return false; }
@@ -640,6 +654,7 @@ pub fn run_k04(tier: &str, seed: u64, out: &str) {
                         let mut trig = vec![];
                         if adapter_type_in_container(&c.doc, sch, 0) { trig.push("adapterTypeInsideContainer".to_string()); }
                         if inst.kind == "Nulls" && nullable_in_container(&c.doc, sch, 0) { trig.push("nullableInsideContainer".to_string()); }
+                        if inst.kind == "Nulls" && nullable_behind_allof(&c.doc, sch, 0) { trig.push("nullableBehindAllOfWrapper".to_string()); }
                         rep.oracle_fail("validInstanceRejected", trig, &case_text(c), &format!("{what}: {e}"))
                     }
                     (Ok(j2), false) => rep.oracle_fail("missingRequiredAccepted", vec![], &case_text(c), &format!("{what} was accepted and printed as {}", serde_json::to_string(j2).unwrap())),
